@@ -6,6 +6,7 @@
 //   sim_hex     (same inputs)                                               hex form (flags = HEX_ONLY)
 //   brackets                                                                "" and "a" round-trip
 //   wide_char   in_c= in_be=                                                'c' gives the 16-bit code unit of the byte, zero-extended
+//   hexdump     in_start= in_size= in_flags=                                hex dump decodes back (addresses, hex columns), no exception
 //   overload                                                                std::string overload: logic_error iff the mask length differs
 //   initial                                                                 numerals little-endian / mask enabled at the start
 //   classify                                                                quoted form iff every byte is printable (all 1-byte strings + pairs)
@@ -182,6 +183,58 @@ int main(int argc, char** argv) {
   if (a.mode == "brackets") {
     string m1("\xFF", 1), m0("\x00", 1);
     return roundtrip("", nullptr, 0) | roundtrip("a", nullptr, 0) | roundtrip("a", &m0, 0) | roundtrip("a", &m1, 0);
+  }
+  if (a.mode == "hexdump") {
+    // hex dump of `size` bytes at `start`: no exception, and the address + hex columns decode back to the bytes at their addresses
+    uint64_t start = a.u("in_start"), size = a.u("in_size"), flags = a.u("in_flags");
+    if (size > (1 << 16)) {
+      printf("size %llu too large for a native replay\n", (unsigned long long)size);
+      return 0;
+    }
+    flags &= (PrintDataFlags::OFFSET_8_BITS | PrintDataFlags::OFFSET_16_BITS | PrintDataFlags::OFFSET_32_BITS | PrintDataFlags::OFFSET_64_BITS |
+        PrintDataFlags::PRINT_ASCII);
+    string d;
+    for (uint64_t k = 0; k < size; k++) {
+      d += (char)((k * 37 + 11) & 0xFF);
+    }
+    string text;
+    try {
+      text = format_data(d.data(), d.size(), start, nullptr, flags | PrintDataFlags::DISABLE_COLOR);
+    } catch (const exception& e) {
+      printf("POSTCONDITION VIOLATED on the real code: format_data(start=0x%llX, size=%llu) threw: %s\n", (unsigned long long)start,
+          (unsigned long long)size, e.what());
+      return 1;
+    }
+    printf("%s", text.c_str());
+    uint64_t decoded = 0, lines = 0;
+    size_t p = 0;
+    while (p < text.size()) {
+      size_t e = text.find('\n', p);
+      if (e == string::npos) e = text.size();
+      string line = text.substr(p, e - p);
+      p = e + 1;
+      size_t bar = line.find(" |");
+      RCHECK(bar != string::npos, "line without address separator: %s", line.c_str());
+      uint64_t addr = strtoull(line.substr(0, bar).c_str(), nullptr, 16);
+      lines++;
+      for (int col = 0; col < 16; col++) {
+        size_t q = bar + 2 + 3 * col;
+        RCHECK(q + 3 <= line.size(), "short line: %s", line.c_str());
+        string cell = line.substr(q, 3);
+        if (cell == "   ") continue;
+        uint64_t v = strtoull(cell.c_str(), nullptr, 16);
+        uint64_t at = addr + col;
+        RCHECK((uint64_t)(at - start) < size, "column %d of line %llX shows a byte outside the dumped range", col, (unsigned long long)addr);
+        RCHECK((uint8_t)d[at - start] == v, "byte at address %llX decodes to %02llX, dumped %02X", (unsigned long long)at, (unsigned long long)v,
+            (uint8_t)d[at - start]);
+        decoded++;
+      }
+    }
+    uint64_t first = start & ~0x0Full, last = start + (size - 1);
+    RCHECK(size == 0 || lines == ((last - first) >> 4) + 1, "%llu lines for a range that intersects %llu lines", (unsigned long long)lines,
+        (unsigned long long)(((last - first) >> 4) + 1));
+    RCHECK(decoded == size, "%llu of %llu bytes decode back", (unsigned long long)decoded, (unsigned long long)size);
+    return 0;
   }
   if (a.mode == "overload") {
     // std::string overload: logic_error iff a mask of another length is given
